@@ -29,10 +29,10 @@ import (
 // The oracles of the Coq model are answered here by the real library functions on the same strings.
 
 type cfgIn struct {
-	Workdir string   `json:"workdir"`
-	Docs    []*string `json:"docs"`    // YAML text; null = no file content at all (empty file)
-	Strings []string `json:"strings"` // every scalar text that occurs: oracle questions
-	Direct  []cfgDirect `json:"direct"` // configurations handed to NewDriver directly (reject paths only)
+	Workdir string      `json:"workdir"`
+	Docs    []*string   `json:"docs"`    // YAML text; null = no file content at all (empty file)
+	Strings []string    `json:"strings"` // every scalar text that occurs: oracle questions
+	Direct  []cfgDirect `json:"direct"`  // configurations handed to NewDriver directly (reject paths only)
 }
 
 type cfgDirect struct {
